@@ -148,20 +148,53 @@ def cxx_obj(o: Dict[str, Any], ns: str) -> str:
     )
 
 
+MAIN_FILE = {"atlas": ("query.cxx", "StatusCode query :: execute ()"), "cms_aod": ("Analyzer.cc", "void Analyzer::analyze("), "cms_miniaod": ("Analyzer.cc", "void Analyzer::analyze(")}
+
+
+def exec_block(backend: str, r: Dict[str, Any]) -> Optional[str]:
+    """The per-event method's body `{ … }` cut out of the RENDERED main source file (so that whatever the template
+    puts around the generated statements — a try/catch, an early return — is part of what is compiled and run)."""
+    fname, head = MAIN_FILE[backend]
+    text = (r.get("files") or {}).get(fname)
+    if not text or head not in text:
+        return None
+    i = text.index("{", text.index(head))
+    depth, j, in_str = 0, i, False
+    while j < len(text):
+        ch = text[j]
+        if in_str:
+            if ch == "\\":
+                j += 1
+            elif ch == '"':
+                in_str = False
+        elif ch == '"':
+            in_str = True
+        elif ch == "{":
+            depth += 1
+        elif ch == "}":
+            depth -= 1
+            if depth == 0:
+                return text[i : j + 1]
+        j += 1
+    return None
+
+
 def program(backend: str, r: Dict[str, Any], events: List[Dict[str, Any]]) -> str:
     ns = NS[backend]
     src = header(backend)
     src += "\n// ---- class-level declarations\n" + "".join(x if isinstance(x, str) else " ".join(x) for x in r["class_decl"]) + "\n"
     # as in the templates: ATLAS initialize()/execute() return a StatusCode, CMS beginJob/analyze are void
+    blk = exec_block(backend, r)
     if backend == "atlas":
         src += "static StatusCode book_all() {\n" + "\n".join(r["book"]) + "\nreturn StatusCode::SUCCESS;\n}\n"
-        src += "static StatusCode execute() {\n" + "\n".join(r["query"]) + "\nreturn StatusCode::SUCCESS;\n}\n"
+        src += "static StatusCode execute()\n" + (blk if blk is not None else "{\n" + "\n".join(r["query"]) + "\nreturn StatusCode::SUCCESS;\n}") + "\n"
     else:
         src += "static void book_all()\n" + "\n".join(r["book"]) + "\n"
-        src += "static void execute()\n" + "\n".join(r["query"]) + "\n"
-    src += "int main() {\n  book_all();\n"
+        src += "static void execute()\n" + (blk if blk is not None else "\n".join(r["query"])) + "\n"
+    # main: no argument = all events in order (one job); "rev" = all events in reverse order; "<k>" = event k alone
+    src += "#include <cstring>\n#include <cstdlib>\n"
     for k, ev in enumerate(events):
-        src += "  {\n"
+        src += f"static void load_{k}() {{\n"
         for b in ev["banks"]:
             coll = next(c for c in qgen.COLLS if qgen.cont_type(backend, c) == b["type"])
             t = qgen.COLLS[coll]
@@ -169,17 +202,23 @@ def program(backend: str, r: Dict[str, Any], events: List[Dict[str, Any]]) -> st
             var = "b_" + "".join(ch for ch in b["bank"] if ch.isalnum())
             src += f"    static std::vector<{ns}::{t}> {var}_{k} = {{{objs}}};\n"
             if backend == "atlas":
-                src += f"    static {ns}::{t}Container {var}_c{k}; for (auto& x : {var}_{k}) {var}_c{k}.push_back(&x);\n"
+                src += f"    static {ns}::{t}Container {var}_c{k}; if ({var}_c{k}.empty()) for (auto& x : {var}_{k}) {var}_c{k}.push_back(&x);\n"
                 src += f'    g_store.banks["{b["bank"]}"] = {{"{b["type"]}", &{var}_c{k}}};\n'
             else:
                 src += f'    iEvent.banks["{b["bank"]}"] = &{var}_{k};\n'
-        src += f'    printf("EVENT {k}\\n"); g_status = 0;\n'
-        src += '    try { execute(); if (g_status) printf("FAULT retrieveFailed\\n"); } catch (const std::out_of_range&) { printf("FAULT loud\\n"); } catch (const std::runtime_error&) { printf("FAULT loud\\n"); }\n'
-        if backend == "atlas":
-            src += "    g_store.banks.clear();\n"
-        else:
-            src += "    iEvent.banks.clear();\n"
-        src += "  }\n"
+        src += "}\n"
+    src += "static bool run_event(int k) {\n  bool faulted = false;\n  switch (k) {\n"
+    for k in range(len(events)):
+        src += f"    case {k}: load_{k}(); break;\n"
+    src += "  }\n"
+    src += '  printf("EVENT %d\\n", k); g_status = 0;\n'
+    src += '  try { execute(); if (g_status) { printf("FAULT retrieveFailed\\n"); faulted = true; } } catch (const std::out_of_range&) { printf("FAULT loud\\n"); faulted = true; } catch (const std::runtime_error&) { printf("FAULT loud\\n"); faulted = true; }\n'
+    src += ("  g_store.banks.clear();\n" if backend == "atlas" else "  iEvent.banks.clear();\n")
+    src += "  return faulted;\n}\n"
+    src += f"int main(int argc, char** argv) {{\n  book_all();\n  const int n = {len(events)};\n"
+    src += '  // a faulting event ends the job (an exception / failed status stops EventLoop and cmsRun)\n  if (argc > 1 && !strcmp(argv[1], "rev")) { for (int k = n - 1; k >= 0; --k) if (run_event(k)) break; }\n'
+    src += "  else if (argc > 1) { run_event(atoi(argv[1])); }\n"
+    src += "  else { for (int k = 0; k < n; ++k) if (run_event(k)) break; }\n"
     src += "  return 0;\n}\n"
     return src
 
@@ -201,6 +240,40 @@ def run_one(backend: str, r: Dict[str, Any], events: List[Dict[str, Any]], synta
         return {"compiled": True, "rc": q.returncode, "events": parse_output(q.stdout), "branches": [l.split()[1:] for l in q.stdout.splitlines() if l.startswith("BRANCH")]}
     finally:
         shutil.rmtree(d, ignore_errors=True)
+
+
+def run_case(backend: str, r: Dict[str, Any], events: List[Dict[str, Any]], per_event=True, job=False, rev=False) -> Dict[str, Any]:
+    """Compile once; run each event alone (`per`), all events as one job (`job`), the reversed job (`rev`)."""
+    d = tempfile.mkdtemp(prefix="vp_gxx_")
+    try:
+        cc = os.path.join(d, "job.cxx")
+        with open(cc, "w") as f:
+            f.write(program(backend, r, events))
+        exe = os.path.join(d, "job")
+        p = subprocess.run(["g++", "-std=c++17", "-O0", "-w", "-o", exe, cc], capture_output=True, text=True, timeout=180)
+        if p.returncode != 0:
+            return {"compiled": False, "errors": p.stderr[-1500:]}
+
+        def go(args):
+            q = subprocess.run([exe] + args, capture_output=True, text=True, timeout=60)
+            return {"compiled": True, "rc": q.returncode, "events": parse_output(q.stdout), "branches": [l.split()[1:] for l in q.stdout.splitlines() if l.startswith("BRANCH")]}
+
+        res: Dict[str, Any] = {"compiled": True}
+        if per_event:
+            res["per"] = [go([str(k)]) for k in range(len(events))]
+        if job:
+            res["job"] = go([])
+        if rev:
+            res["rev"] = go(["rev"])
+        return res
+    finally:
+        shutil.rmtree(d, ignore_errors=True)
+
+
+def run_cases(jobs: List[tuple], workers: int = 14) -> List[Dict[str, Any]]:
+    """jobs: (backend, result, events, per_event, job, rev)"""
+    with ThreadPoolExecutor(max_workers=workers) as ex:
+        return list(ex.map(lambda j: run_case(*j), jobs))
 
 
 def parse_output(out: str) -> List[Dict[str, Any]]:
